@@ -13,6 +13,9 @@ PROPERTY = 'C10'
 LEVEL = 'exploration'
 MODE = 'nrt'
 SHARDS = {'quick': 2, 'thorough': 16}
+# programs whose outcome depends on the order of near-simultaneous events of
+# different clock threads are discarded by the model (about 10 %, counted)
+MAX_REJECT = 0.3
 MANIFEST = {
     'technique': 'differential property-based testing: every generated '
                  'program is run under NrtMain (in process and in a second '
